@@ -274,13 +274,17 @@ structure NRes where
   err : Option Err := none
 deriving Repr
 
+/-- `c.combine(port, token)` of a flat inner combinator of kind `k` over `ports` -/
+def innerAdd (k : Kind) (ports : List Nat) (tv : TV) (p : Nat) (t : Tok) : Res :=
+  match k with
+  | .dot => dotAdd ports.length tv p (Elem.ofTok p t)
+  | .cart d => cartAdd d ports tv p (Elem.ofTok p t)
+
 /-- `DotProductCombinator.combine(port, token)` of the outer combinator -/
 def nestedAdd (items : List Item) (s : NSt) (p : Nat) (t : Tok) : NRes :=
   match findSub p items 0 with
   | some (i, k, ports) =>
-      let r := match k with
-        | .dot => dotAdd ports.length (innerGet s i) p (Elem.ofTok p t)
-        | .cart d => cartAdd d ports (innerGet s i) p (Elem.ofTok p t)
+      let r := innerAdd k ports (innerGet s i) p t
       let s1 := innerSet s i r.tv
       -- the inner generator is consumed lazily, but it does not read the outer state: feeding the
       -- schemas it yielded (before raising, if it raises) is the same sequence of outer operations
